@@ -1,4 +1,20 @@
-import SockModel
+import SockModel.Drive.Common
+import SockModel.Drive.C01
+import SockModel.Drive.C02
+import SockModel.Drive.C03
+import SockModel.Drive.C04
+import SockModel.Drive.C06
+import SockModel.Drive.C09
+import SockModel.Drive.C10
+import SockModel.Drive.C11
+import SockModel.Drive.C12
+import SockModel.Drive.C13
+import SockModel.Drive.C14
+import SockModel.Drive.C15
+import SockModel.Drive.C17
+import SockModel.Drive.C18
+/- Only the drivers: nothing under Props/ (and hence not Generated/Funcs.lean) is reachable from here, so the
+`sockmodel` executable keeps building when a theorem of one property breaks against the current tree. -/
 open SockModel.Drive
 
 partial def readAll (h : IO.FS.Stream) (acc : Array String) : IO (Array String) := do
